@@ -2,6 +2,7 @@ package checks
 
 import (
 	"fmt"
+	"net/netip"
 	"os"
 	"strings"
 	"testing"
@@ -15,6 +16,7 @@ import (
 	"github.com/irai/packet/handlers/icmp_spoofer"
 
 	"verif/harness/mon"
+	"verif/harness/refdec"
 	"verif/harness/wk"
 )
 
@@ -64,19 +66,35 @@ func runBubble(c *wk.Ctx, idx int64, f func()) {
 // rxBuf models the read loop's single receive buffer (buf := make([]byte, EthMaxSize); n, _ := ReadFrom(buf); Parse(buf[:n]); ...):
 // every frame a workload delivers is copied into it before Parse, and when the step is over the buffer is overwritten, as the
 // next ReadFrom would do. Whatever the library keeps from a packet must not live in this buffer.
-type rxBuf struct{ b []byte }
+type rxBuf struct {
+	b []byte
+	n int
+}
 
 func newRx() *rxBuf { return &rxBuf{b: make([]byte, packet.EthMaxSize)} }
 
 // load copies a frame into the buffer and returns the slice to parse; the rest of the buffer keeps the previous frame's bytes.
-func (r *rxBuf) load(f []byte) []byte { return r.b[:copy(r.b, f)] }
+func (r *rxBuf) load(f []byte) []byte {
+	if len(f) > len(r.b) {
+		return append([]byte(nil), f...) // larger than any frame the read loop could receive: delivered as it is
+	}
+	return r.b[:copy(r.b, f)]
+}
 
-// scribble overwrites the whole buffer.
+// scribble overwrites the whole buffer: alternately with a byte pattern and with a frame of some other station that the
+// caller read but never handed to Parse (a well-formed IPv4/UDP packet from 192.168.0.222: whoever looks behind the end of
+// the next, shorter frame finds a plausible packet there, not garbage).
 func (r *rxBuf) scribble() {
 	for i := range r.b {
 		r.b[i] = 0xa5
 	}
+	if r.n++; r.n%2 == 0 {
+		copy(r.b, ghostFrame)
+	}
 }
+
+var ghostFrame = refdec.Ether(refdec.MAC{0x02, 0x55, 0x55, 0x55, 0x55, 0x55}, refdec.MAC{0x02, 0xee, 0xee, 0xee, 0xee, 0xee}, 0x0800, 0,
+	refdec.IP4(refdec.IP4Hdr{TTL: 64, Proto: 17, Src: netip.MustParseAddr("192.168.0.222"), Dst: netip.MustParseAddr("192.168.0.129")}, refdec.UDP(40003, 40004, []byte("ghost of another station's packet"))))
 
 // setLogLevels switches every logger of the library between its default (info) and debug level. Debug level makes the library
 // render packets and tables into log lines (String()/FastLog of the views) and takes branches that are dead otherwise.
